@@ -26,7 +26,9 @@ WRAPS = ["'''%s'''", "''%s''", "[[a|%s]]", "{{t|%s}}", "{{t|k=%s}}", "{{#if:x|%s
 BLOCKS = [
     "%s\n", "==%s==\n", "===%s===\n", "*%s\n", "#%s\n", "*%s\n**%s\n", "*%s\n*%s\n", ";%s:%s\n", ";%s\n:%s\n",
     "{|\n|%s\n|}\n", '{| class="c"\n|+%s\n|-\n! %s !! %s\n|-\n| style="s" | %s || %s\n|}\n',
-    "{|\n|-\n|%s\n|%s\n|-\n!%s\n|}\n", "{|\n|+ %s\n|}\n", "----\n", "<div>%s</div>\n", '<div id="i">\n%s\n</div>\n', ":%s\n",
+    "{|\n|-\n|%s\n|%s\n|-\n!%s\n|}\n",
+    '{|\n! scope="col" | %s\n! id="h2" | %s\n|- class="r"\n| %s\n|}\n', '{| id="t"\n|+ class="k" |%s\n|-\n! colspan="2" | %s\n|}\n',
+    '<div class="c"><span id="s">%s</span></div>\n', "{|\n|+ %s\n|}\n", "----\n", "<div>%s</div>\n", '<div id="i">\n%s\n</div>\n', ":%s\n",
 ]
 BLOCK_KINDS = set(LEVELK) | {K.ROOT, K.LIST, K.LIST_ITEM, K.TABLE, K.TABLE_CAPTION, K.TABLE_ROW, K.TABLE_HEADER_CELL,
                              K.TABLE_CELL, K.HLINE, K.PREFORMATTED, K.PRE}
